@@ -367,20 +367,27 @@ def optSem {α β : Type} (t : Tbl α) (f : α → M β) : M (Option β) :=
     | .error .empty => pure none
     | .error e => .error e
 
-/-- `subset_gdef(gdef, plan, s)`: the store is subset only for minor >= 3, the mark glyph sets only
-for minor >= 2; without a store the version is lowered to 1.2 (mark glyph sets written) or 1.0;
-`Err(EMPTY)` when nothing is written -/
+/-- the variation store is subset only for minor version >= 3 -/
+def storePart (p : LPlan) (g : GdefIn) : M (Option (Nat × SubsetHvar.StoreOut)) :=
+  if g.minor ≥ 3 then optSem g.varStore (fun st => storeSem st (varPlan p g).inner) else pure none
+
+/-- the mark glyph sets are subset only for minor version >= 2 -/
+def setsPart (p : LPlan) (g : GdefIn) : M (Option (Nat × List CovW)) :=
+  if g.minor ≥ 2 then optSem g.markGlyphSets (markSetsSem p) else pure none
+
+/-- `subset_gdef(gdef, plan, s)`: without a store the version is lowered to 1.2 (mark glyph sets
+written) or 1.0; `Err(EMPTY)` when nothing is written -/
 def subsetGdefSem (p : LPlan) (g : GdefIn) : M GdefOut := do
-  let vp := varPlan p g
-  let store ← if g.minor ≥ 3 then optSem g.varStore (fun st => storeSem st vp.inner) else pure none
-  let sets ← if g.minor ≥ 2 then optSem g.markGlyphSets (markSetsSem p) else pure none
-  let minor := if store.isSome then g.minor else if sets.isSome then 2 else 0
+  let store ← storePart p g
+  let sets ← setsPart p g
   let mac ← optSem g.markAttachClassDef (fun cd => (subsetClassDef p gdefCdArgs cd).map (·.1))
-  let lig ← optSem g.ligCaretList (ligSem p vp.vmap)
+  let lig ← optSem g.ligCaretList (ligSem p (varPlan p g).vmap)
   let att ← optSem g.attachList (attachSem p)
   let cls ← optSem g.glyphClassDef (fun cd => (subsetClassDef p gdefCdArgs cd).map (·.1))
   if cls.isSome || att.isSome || lig.isSome || mac.isSome || sets.isSome || store.isSome then
-    pure { major := g.major, minor, glyphClassDef := cls, attachList := att, ligCaretList := lig,
+    pure { major := g.major,
+           minor := if store.isSome then g.minor else if sets.isSome then 2 else 0,
+           glyphClassDef := cls, attachList := att, ligCaretList := lig,
            markAttachClassDef := mac, markGlyphSets := sets, varStore := store }
   else throw .empty
 
